@@ -21,15 +21,18 @@ type c13Case struct {
 	Honour  bool     `json:"honour_deadlines"`
 	Answers []string `json:"answers"` // per trusted peer
 	Order   []int    `json:"order"`   // release order of the peers' answers
+	// Warm: one honest request for another height succeeds before the call under test (state that a
+	// client may keep between requests - pools, caches - is then populated)
+	Warm bool `json:"warm,omitempty"`
 }
 
 func (c c13Case) String() string {
-	return fmt.Sprintf("%s(%s) chainid=%v dl=%v answers=%v order=%v", c.Method, c.Target, c.ChainID, c.Honour, c.Answers, c.Order)
+	return fmt.Sprintf("%s(%s) chainid=%v dl=%v answers=%v order=%v warm=%v", c.Method, c.Target, c.ChainID, c.Honour, c.Answers, c.Order, c.Warm)
 }
 
 var singleCatalogue = []string{
 	"honest", "other-height", "wrong-chain", "empty-chain", "invalid", "not-found", "unknown-status", "negative-status", "invalid-status",
-	"empty-close", "truncated-frame", "oversized-prefix", "random-bytes", "malformed-frame", "garbage-body", "empty-body",
+	"empty-close", "zero-length-frame", "truncated-frame", "oversized-prefix", "random-bytes", "malformed-frame", "garbage-body", "empty-body",
 	"two-responses", "hang", "reset",
 }
 
@@ -52,6 +55,9 @@ func c13Exec(t *testing.T, run *vk.Run, c c13Case) (done bool, res *vk.H, err er
 	run.Inflight(shardOf(t), c)
 	br := vk.Bubble(t, func() {
 		script := func(idx int, req *p2p_pb.HeaderRequest, attempt int) Answer {
+			if c.Warm && req.GetOrigin() == c13Height+2 {
+				return Answer{Kind: "honest"}
+			}
 			return Answer{Kind: c.Answers[idx]}
 		}
 		net, nerr := NewNet(len(c.Answers), c05Chain, c.Honour, script)
@@ -74,6 +80,19 @@ func c13Exec(t *testing.T, run *vk.Run, c c13Case) (done bool, res *vk.H, err er
 		}
 		ctx, cancel := context.WithTimeout(context.Background(), 60*time.Second)
 		defer cancel()
+		if c.Warm {
+			for p := range c.Answers {
+				net.Release(p)
+			}
+			wc := vk.Spawn(func() (*vk.H, error) { return ex.GetByHeight(ctx, c13Height+2) })
+			for i := 0; i < 20 && !wc.Done(); i++ {
+				vk.Advance(time.Second)
+			}
+			if !wc.Done() || wc.Err != nil || wc.Val == nil || wc.Val.Ht != c13Height+2 {
+				run.HarnessError("C13 warm-up request failed on %s: %v %v", c, wc.Val, wc.Err)
+				return
+			}
+		}
 		start := time.Now()
 		call := vk.Spawn(func() (*vk.H, error) {
 			switch {
@@ -216,7 +235,7 @@ func identity(n int) []int {
 func TestC13(t *testing.T) {
 	run := vk.NewRun("C13", "fault_enumeration")
 	defer run.Finish()
-	run.SetRule("real Exchange.Get/GetByHeight over mocknet against 1..3 (thorough: 4) scripted trusted peers: every assignment of per-peer answers from a 19-entry catalogue (honest, other header, wrong chain, invalid, NOT_FOUND, unknown/INVALID status, empty close, truncated/oversized/malformed frame, random bytes, garbage/empty body, two responses, hang, reset) x {Get,GetByHeight} x target {present, absent, zero} x chain id {set, unset}; arrival order imposed by release gates (all permutations for the reduced catalogue); distinct = (method, target, multiset of answers, outcome)")
+	run.SetRule("real Exchange.Get/GetByHeight over mocknet against 1..3 (thorough: 4) scripted trusted peers: every assignment of per-peer answers from a 20-entry catalogue (honest, other header, wrong chain, invalid, NOT_FOUND, unknown/INVALID status, empty close, truncated/oversized/malformed frame, random bytes, garbage/empty body, two responses, hang, reset) x {Get,GetByHeight} x target {present, absent, zero} x chain id {set, unset}; arrival order imposed by release gates (all permutations for the reduced catalogue); distinct = (method, target, multiset of answers, outcome)")
 	run.Assume("a header type whose UnmarshalBinary itself panics is excluded here (type-level bug); height binding of GetByHeight answers is not part of the statement")
 
 	var rc c13Case
@@ -248,6 +267,9 @@ func TestC13(t *testing.T) {
 							continue
 						}
 						cases = append(cases, c13Case{Method: m, Target: tg, ChainID: cid, Honour: honour, Answers: append([]string(nil), answers...), Order: append([]int(nil), order...)})
+						if len(answers) == 1 {
+							cases = append(cases, c13Case{Method: m, Target: tg, ChainID: cid, Honour: honour, Answers: append([]string(nil), answers...), Order: append([]int(nil), order...), Warm: true})
+						}
 					}
 				}
 			}
